@@ -25,6 +25,19 @@ Theorem C08_every_module_imports_first : forallb (imports_first pkg_graph 4000) 
 Proof. vm_compute. reflexivity. Qed.
 Print Assumptions C08_every_module_imports_first.
 
+(* a restart script imports quansino.mc (or one of its submodules) to name the simulation class and nothing else: every module that registers
+   classes has then been executed, so every name a document can contain resolves.  Likewise quansino.moves alone brings the modules that
+   register the moves, the operations and the integrators (what a move document nests).  REGENERATED from the current source. *)
+Theorem C08_mc_import_registers_everything :
+  forallb (fun first => forallb (loaded_after pkg_graph 4000 first) registering_modules) mc_modules = true.
+Proof. vm_compute. reflexivity. Qed.
+Print Assumptions C08_mc_import_registers_everything.
+Theorem C08_moves_import_registers_parts :
+  forallb (loaded_after pkg_graph 4000 mod_moves) [mod_moves; mod_operations; mod_integrators] = true
+  /\ existsb (Nat.eqb mod_moves) registering_modules && existsb (Nat.eqb mod_operations) registering_modules && existsb (Nat.eqb mod_integrators) registering_modules = true.
+Proof. split; vm_compute; reflexivity. Qed.
+Print Assumptions C08_moves_import_registers_parts.
+
 (* non-vacuity: the model does fail on a cycle - two modules importing a name from each other before defining it *)
 Example C08_cycle_detected :
   imports_first [ {| m_id := 1; m_parent := None; m_self_name := 0; m_body := [SFrom 2 [7]; SDef 8] |};
